@@ -1579,8 +1579,12 @@ package engine
 //@   at-store seqIterator.Seq requires[the-whole-body] v == body
 
 //@ func renamedCopy
-//@   trusted
+//@   property C10 C11
+//@   assumed-post
+//@   checks only at-call at-call-missing
+//@   nosafety
 //@   modifies nothing
+//@   at-call renamedCopy requires[every-part-of-the-term-is-copied-under-the-same-renaming-and-environment] a1 == local(copied, map[termID]Term) && a2 == env
 //@   ensures result1 == nil ==> detached(result0)
 
 //@ func FindAll
